@@ -112,4 +112,90 @@ theorem dft_circ1 (N : Nat) (ω : R) (hω : ω ^ N = 1) (a b : List Int → R) (
   dsimp only
   rw [circ1_eq_cconvN N a b u (mem_range.mp hu)]
 
+/-! ### n dimensions: the separable transform, axis by axis -/
+
+/-- n-D discrete Fourier transform on the box `Ns` (one root per axis), defined as the iteration of the 1-D
+transform over the axes (what `rfftn`/`fftn` compute, up to the half-spectrum storage) -/
+def dftS : List Nat → List R → (List Int → R) → List Nat → R
+  | [], _, F, _ => F []
+  | N :: Ns, ωs, F, ks =>
+      dftN N (ωs.headD 1) (fun i => dftS Ns ωs.tail (fun idx => F ((i : Int) :: idx)) ks.tail) (ks.headD 0)
+
+/-- every axis has a root of unity of its own length -/
+def RootsOk : List Nat → List R → Prop
+  | [], _ => True
+  | N :: Ns, ωs => (ωs.headD 1) ^ N = 1 ∧ RootsOk Ns ωs.tail
+
+/-- the n-D transform is additive over finite sums of fields -/
+theorem dftS_sum : ∀ (Ns : List Nat) (ωs : List R) (M : Nat) (G : Nat → List Int → R) (ks : List Nat),
+    dftS Ns ωs (fun idx => ∑ j ∈ range M, G j idx) ks = ∑ j ∈ range M, dftS Ns ωs (G j) ks
+  | [], _, _, _, _ => rfl
+  | N :: Ns, ωs, M, G, ks => by
+    simp only [dftS, dftN]
+    have : ∀ i, dftS Ns ωs.tail (fun idx => ∑ j ∈ range M, G j ((i : Int) :: idx)) ks.tail
+        = ∑ j ∈ range M, dftS Ns ωs.tail (fun idx => G j ((i : Int) :: idx)) ks.tail :=
+      fun i => dftS_sum Ns ωs.tail M (fun j idx => G j ((i : Int) :: idx)) ks.tail
+    simp only [this, Finset.sum_mul]
+    exact Finset.sum_comm
+
+theorem dftS_congr : ∀ (Ns : List Nat) (ωs : List R) (F G : List Int → R) (ks : List Nat),
+    (∀ idx : List Nat, inShape Ns idx = true → F (natsToInts idx) = G (natsToInts idx)) →
+    dftS Ns ωs F ks = dftS Ns ωs G ks
+  | [], _, F, G, _, h => h [] rfl
+  | N :: Ns, ωs, F, G, ks, h => by
+    simp only [dftS, dftN]
+    apply Finset.sum_congr rfl
+    intro i hi
+    congr 1
+    apply dftS_congr Ns ωs.tail _ _ ks.tail
+    intro idx hidx
+    have := h (i :: idx) (by simp [inShape, mem_range.mp hi, hidx])
+    simpa [natsToInts] using this
+
+/-- peeling the first axis off the model's circular convolution -/
+theorem circ_cons (N : Nat) (Ns : List Nat) (a b : List Int → R) (i : Nat) (idx : List Int) :
+    circ (N :: Ns) a b ((i : Int) :: idx)
+      = ∑ j ∈ range N, circ Ns (fun x => a ((j : Int) :: x)) (fun x => b ((((i + N - j) % N : Nat) : Int) :: x)) idx := by
+  unfold circ
+  simp only [sumShape, sumRange_eq_sum]
+  apply Finset.sum_congr rfl
+  intro j hj
+  have hj' := mem_range.mp hj
+  apply sumShape_congr
+  intro js _
+  have e : ((i : Int) - (j : Int)) % (N : Int) = (((i + N - j) % N : Nat) : Int) := by
+    have h1 : ((i + N - j : Nat) : Int) = (i : Int) - j + N := by omega
+    rw [Int.natCast_mod, h1, Int.add_emod_right]
+  simp [natsToInts, wrapSub, e]
+
+/-- **Convolution theorem in n dimensions.**  On every box, for every choice of per-axis roots of unity, the
+separable transform of the model's circular convolution `circ` is the pointwise product of the transforms. -/
+theorem dftS_circ : ∀ (Ns : List Nat) (ωs : List R) (_ : RootsOk Ns ωs) (a b : List Int → R) (ks : List Nat),
+    dftS Ns ωs (fun u => circ Ns a b u) ks = dftS Ns ωs a ks * dftS Ns ωs b ks
+  | [], _, _, a, b, _ => by simp [dftS, circ, sumShape, natsToInts, wrapSub]
+  | N :: Ns, ωs, hω, a, b, ks => by
+    obtain ⟨hω0, hωt⟩ := hω
+    -- abbreviations: transforms of the slices along the first axis
+    set A : Nat → R := fun j => dftS Ns ωs.tail (fun x => a ((j : Int) :: x)) ks.tail with hA
+    set B : Nat → R := fun r => dftS Ns ωs.tail (fun x => b ((r : Int) :: x)) ks.tail with hB
+    have hrhs : dftS (N :: Ns) ωs a ks * dftS (N :: Ns) ωs b ks
+        = dftN N (ωs.headD 1) A (ks.headD 0) * dftN N (ωs.headD 1) B (ks.headD 0) := rfl
+    rw [hrhs, ← dft_cconv N (ωs.headD 1) hω0 A B]
+    show dftN N (ωs.headD 1) (fun i => dftS Ns ωs.tail (fun idx => circ (N :: Ns) a b ((i : Int) :: idx)) ks.tail) (ks.headD 0)
+      = dftN N (ωs.headD 1) (cconvN N A B) (ks.headD 0)
+    unfold dftN
+    apply Finset.sum_congr rfl
+    intro i _
+    congr 1
+    beta_reduce
+    have e1 : (fun idx => circ (N :: Ns) a b ((i : Int) :: idx))
+        = fun idx => ∑ j ∈ range N, circ Ns (fun x => a ((j : Int) :: x))
+            (fun x => b ((((i + N - j) % N : Nat) : Int) :: x)) idx := by
+      funext idx; exact circ_cons N Ns a b i idx
+    rw [e1, dftS_sum]
+    unfold cconvN
+    apply Finset.sum_congr rfl
+    intro j _
+    exact dftS_circ Ns ωs.tail hωt _ _ ks.tail
+
 end Pm.C01
